@@ -164,7 +164,7 @@ func c16ExpectList(entries []c16Entry) (kept, dedup []string) {
 func init() {
 	engine.Register(&engine.Check{
 		ID: "C16", Name: "flatten", Level: "model_checking",
-		Rule: "hosts = Activity, IntransitiveActivity, Question, Object, Actor through FlattenProperties and the typed functions; every single-item flattened position x 13 entry shapes " +
+		Rule: "hosts = Activity, IntransitiveActivity, Question, Object, Actor through FlattenProperties and the typed functions; FlattenCollection / FlattenOrderedCollection on the members of a collection (every sequence of length < L, long lists, nil); every single-item flattened position x 13 entry shapes " +
 			"(IRI, pointer/value object with id, actor, activity, object without id, link with/without id, embedded collections, lists of two) and every addressing list x every sequence of length <= L over 11 entries " +
 			"(duplicates included); host otherwise saturated; oracle = per-entry reference flatten (D8), all non-flattened properties unchanged, no IRI in the result that was not in the original, flatten twice = once; " +
 			"non-trivial = position holds at least one embedded object",
@@ -273,6 +273,103 @@ func c16Check(t *engine.T, h c16Host, term string, set func(e reflect.Value), ju
 	}
 }
 
+// c16Collections: FlattenCollection / FlattenOrderedCollection flatten the members of a collection (and nothing else): every
+// sequence of entries of length <= L, long lists, nil receiver.
+func c16Collections(c *engine.Ctx, entries []c16Entry, L int) {
+	type kind struct {
+		name string
+		run  func(es []c16Entry) (got ap.Item, before, after *canon.Node, same bool)
+	}
+	mkList := func(es []c16Entry) ap.ItemCollection {
+		col := make(ap.ItemCollection, len(es))
+		for i, e := range es {
+			col[i] = e.mk()
+		}
+		return col
+	}
+	kinds := []kind{
+		{"FlattenCollection", func(es []c16Entry) (ap.Item, *canon.Node, *canon.Node, bool) {
+			g := &universe.Gen{}
+			col := universe.Embedded(universe.ByName("Collection"), g, true, true).Interface().(*ap.Collection)
+			col.Current, col.First = universe.Embedded(universe.ByName("CollectionPage"), g, true, true).Interface().(ap.Item), g.IRI()
+			col.Items = mkList(es)
+			before := canon.Of(col, canon.Raw)
+			ret := ap.FlattenCollection(col)
+			return col.Items, before, canon.Of(col, canon.Raw), ret == col
+		}},
+		{"FlattenOrderedCollection", func(es []c16Entry) (ap.Item, *canon.Node, *canon.Node, bool) {
+			g := &universe.Gen{}
+			col := universe.Embedded(universe.ByName("OrderedCollection"), g, true, true).Interface().(*ap.OrderedCollection)
+			col.Current, col.Last = universe.Embedded(universe.ByName("OrderedCollectionPage"), g, true, true).Interface().(ap.Item), g.IRI()
+			col.OrderedItems = mkList(es)
+			before := canon.Of(col, canon.Raw)
+			ret := ap.FlattenOrderedCollection(col)
+			return col.OrderedItems, before, canon.Of(col, canon.Raw), ret == col
+		}},
+	}
+	for _, k := range kinds {
+		k := k
+		term := map[string]string{"FlattenCollection": "items", "FlattenOrderedCollection": "orderedItems"}[k.name]
+		one := func(es []c16Entry, label string) {
+			class := "C16|" + k.name + "|" + term
+			c.Do(class, func() string { return fmt.Sprintf("%s on a collection whose %s = %s", k.name, term, label) }, func(t *engine.T) {
+				t.Distinct(true)
+				got, before, after, same := k.run(es)
+				t.Ops(1)
+				if !same {
+					t.Fail(class+"|result-is-not-the-argument", "%s did not return its argument", k.name)
+				}
+				kept, dedup := c16ExpectList(es)
+				d := c16Desc(got)
+				if len(es) > 0 && d != "["+strings.Join(kept, " ")+"]" && d != "["+strings.Join(dedup, " ")+"]" {
+					if len(d) > 500 {
+						d = d[:500] + "..."
+					}
+					t.Fail(class+fmt.Sprintf("|len=%d|wrong-result", min(len(es), 9)), "%s = %s became %s", term, label, d)
+				}
+				if before != nil && after != nil {
+					for tb, nb := range before.F {
+						if tb != term && !canon.Equal(nb, after.F[tb]) {
+							t.Fail("C16|"+k.name+"|"+tb+"|other-property-changed", "property %s changed from %s to %s", tb, nb, after.F[tb])
+						}
+					}
+				}
+			})
+		}
+		var rec func(cur []int)
+		rec = func(cur []int) {
+			es := make([]c16Entry, len(cur))
+			names := make([]string, len(cur))
+			for i, x := range cur {
+				es[i], names[i] = entries[x], entries[x].name
+			}
+			one(es, "["+strings.Join(names, ", ")+"]")
+			if len(cur) >= L {
+				return
+			}
+			for x := range entries {
+				rec(append(append([]int{}, cur...), x))
+			}
+		}
+		rec(nil)
+		for _, N := range []int{17, 33, 65} {
+			one(c16LongEntries(N), fmt.Sprintf("%d members of distinct ids (3 without id)", N))
+		}
+	}
+	c.Do("C16|FlattenCollection|nil", func() string { return "FlattenCollection(nil) and FlattenOrderedCollection(nil)" }, func(t *engine.T) {
+		t.Distinct(true)
+		if ap.FlattenCollection(nil) != nil || ap.FlattenOrderedCollection(nil) != nil {
+			t.Fail("C16|FlattenCollection|nil|non-nil-result", "a nil collection flattened to something")
+		}
+		if ap.FlattenActivityProperties(nil) != nil || ap.FlattenIntransitiveActivityProperties(nil) != nil || ap.FlattenObjectProperties(nil) != nil || ap.FlattenActorProperties(nil) != nil {
+			t.Fail("C16|Flatten*Properties|nil|non-nil-result", "a typed Flatten function returned something for a nil pointer")
+		}
+		if got := ap.FlattenItemCollection(nil); len(got) != 0 {
+			t.Fail("C16|FlattenItemCollection|nil|non-empty-result", "FlattenItemCollection(nil) = %v", got)
+		}
+	})
+}
+
 func c16Run(c *engine.Ctx) {
 	entries := c16Entries()
 	colls := c16CollEntries()
@@ -280,6 +377,7 @@ func c16Run(c *engine.Ctx) {
 	if !c.Quick() {
 		listL = 4
 	}
+	c16Collections(c, entries, listL-1)
 	for _, h := range c16Hosts() {
 		h := h
 		st := universe.ByName(h.st)
